@@ -13,6 +13,8 @@ CONSTANTS MaxPerm,    \* all permutations of 0..n-1 for n <= MaxPerm, all index 
           MaxCyc,     \* all pairs of permutations up to this length (cycle crossover)
           MaxArith,   \* arithmetic crossover: parents over ArithVals up to this length, alphas in {0..4}/4
           ArithVals,
+          MaxArithX,  \* arithmetic crossover on extreme genes: parents over the ranks ArithXVals up to this length,
+          ArithXVals, \*   every alpha index 0..AlphaTop
           CompN,      \* component model: populations of up to CompN individuals
           CompD       \* component model: dimensions 2..CompD
 
@@ -41,14 +43,16 @@ PermPops(d) == {<<>>} \cup {<<p>> : p \in Perms(d)} \cup {<<IdP(d), p>> : p \in 
 BitPops(d)  == {<<>>} \cup {<<p>> : p \in [1..d -> {0, 1}]}  \cup {<<[c \in 1..d |-> c % 2], p>> : p \in [1..d -> {0, 1}]}
 Zeros(n, d) == [j \in 1..n |-> [c \in 1..d |-> 0]]
 Dims == 2..CompD
+IdsMC == {"Global", "A"}    \* identifiers of the component model (the third, B, is exercised on the code only)
 
 OkR(a, out) == CR("ok", out, a.base, Height(a), <<>>, <<>>)
 ErrR(k) == CR(k, <<>>, <<>>, 1, <<>>, <<>>)
 
-Gen(a) ==
+(* replies of an instance that obeys the parameters in `a` (reg, mag: below) *)
+GenE(a) ==
     LET n == Len(a.pin) d == a.dim IN
     CASE a.c \in RealMut ->
-            IF a.pr = 3 THEN {ErrR("err")}
+            IF a.pr = 3 \/ a.st = StBad THEN {ErrR("err")}
             ELSE IF a.pr = 0 THEN {OkR(a, a.pin)}
             ELSE {OkR(a, o) : o \in [1..n -> [1..d -> {0, 1}]]}
       [] a.c = "BitFlipMutation" ->
@@ -102,10 +106,26 @@ Gen(a) ==
                     {[c \in 1..d |-> IF c \in S THEN a.base[j][c] ELSE a.pin[j][c]] : S \in Sets}])}
       [] OTHER -> {}
 
+(* ... with the observations: the parameter states read back, and for      *)
+(* UniformMutation the magnitude classes (every moved coordinate in the    *)
+(* same class m, for every class the effective bound allows)               *)
+Gen(a) ==
+    LET e == Eff(a)
+        reg(r) == IF a.c \in IdComps /\ r.k \in {"ok", "err"}
+                  THEN [k \in 1..Len(IdSeq) |-> RegOf(a)[IdSeq[k]]] ELSE <<>>
+        blt(r) == IF r.k \in {"ok", "err"} THEN <<Built(a).pr, Built(a).p2, Built(a).both, a.st, a.np>> ELSE <<>>
+    IN UNION {
+        IF a.c = "UniformMutation" /\ r.k = "ok"
+        THEN {[r EXCEPT !.reg = reg(r), !.built = blt(r),
+                        !.mag = [j \in 1..Len(r.out) |-> [c \in 1..Len(r.out[j]) |-> r.out[j][c] * m]]]
+              : m \in 1..e.st}
+        ELSE {[r EXCEPT !.reg = reg(r), !.built = blt(r)]}
+        : r \in GenE(e)}
+
 Nrel(np, d) == IF 1 <= np /\ np < d THEN 0 ELSE 1
-CompCases ==
-    UNION {
-        {CA(c, 0, pr, 0, 0, d, 1, Zeros(n, d), <<>>) : c \in RealMut, pr \in 0..3, n \in 0..2}
+St(c) == IF c \in StrComps THEN {1, 2, StBad} ELSE {0}
+BaseCases(d) ==
+        {[CA(c, 0, pr, 0, 0, d, 1, Zeros(n, d), <<>>) EXCEPT !.st = st] : c \in RealMut, pr \in 0..3, n \in 0..2, st \in {0, 1, 2, StBad}}
         \cup {CA("BitFlipMutation", 0, pr, 0, 0, d, 1, pin, <<>>) : pr \in 0..3, pin \in BitPops(d)}
         \cup {CA("PartialRandomBitstring", 0, pr, p2, 0, d, 1, pin, <<>>) : pr \in 0..3, p2 \in 0..2, pin \in BitPops(d)}
         \cup {CA("ScrambleMutation", 0, pr, 0, 0, d, 1, pin, <<>>) : pr \in 0..3, pin \in PermPops(d)}
@@ -119,7 +139,30 @@ CompCases ==
         \cup {CA("CycleCrossover", 0, pr, 0, both, d, 1, pin, <<>>) :
                 pr \in 0..2, both \in {0, 1}, pin \in PermPops(d) \cup {<<IdP(d), RevP(d), RevP(d)>>}}
         \cup {CA(c, 0, pr, 0, 0, d, 1, LabPop(n, d, 0), LabPop(n, d, 4)) : c \in DEX, pr \in 0..2, n \in 0..2}
-        : d \in Dims}
+(* a base case built through constructor ct instead of `new`: the          *)
+(* arguments ct does not take are dropped                                  *)
+Via(a, ct) == [a EXCEPT !.ctor = ct,
+                        !.pr = IF FixPr(ct) # NoVal THEN NoVal ELSE a.pr,
+                        !.p2 = IF FixP2(ct) # NoVal THEN NoVal ELSE a.p2,
+                        !.both = IF FixBoth(ct) # NoVal THEN NoVal ELSE a.both]
+(* every constructor of every component on every base case of the smallest *)
+(* dimension; the larger dimensions through `new`                          *)
+CtorCases(d) == UNION {{Via(a, ct) : ct \in (IF d = 2 THEN Ctors(a.c) ELSE {"new"})}
+                       : a \in {b \in BaseCases(d) : b.st \in St(b.c)}}
+(* instances under identifier i, alone or with a sibling under another      *)
+(* identifier, with at most one adaptation, on one-individual populations  *)
+IdBase == {a \in BaseCases(2) : /\ a.c \in IdComps /\ a.st = (IF a.c \in StrComps THEN 1 ELSE 0) /\ a.pr # 1 /\ a.p2 # 1
+                                /\ a.pin \in {Zeros(1, 2), <<IdP(2)>>}}
+SibSt(c) == IF c \in StrComps THEN {2, StBad} ELSE {0}
+Sibs(c, i) == {<<>>} \cup {<<[id |-> s, pr |-> x, st |-> y]>> : s \in IdsMC \ {i}, x \in {0, 2, 3}, y \in SibSt(c)}
+Adapts(c, i, sb) ==
+    LET ids == {i} \cup {sb[k].id : k \in DOMAIN sb} IN
+    {<<>>} \cup {<<[id |-> t, w |-> 1, v |-> x]>> : t \in ids, x \in {0, 3}}
+           \cup (IF c \in StrComps THEN {<<[id |-> t, w |-> 2, v |-> y]>> : t \in ids, y \in {2, StBad}} ELSE {})
+IdCases == UNION {UNION {{[Via(a, ct) EXCEPT !.id = i, !.sibs = sb, !.adapt = ad] : ad \in Adapts(a.c, i, sb)}
+                         : sb \in Sibs(a.c, i)}
+                  : a \in IdBase, ct \in IdCtors, i \in IdsMC}
+CompCases == UNION {CtorCases(d) : d \in Dims} \cup IdCases
 
 GenStep(a, r) == cact' = a /\ cres' = r /\ UNCHANGED <<act, res>>
 
@@ -130,16 +173,19 @@ GenStep(a, r) == cact' = a /\ cres' = r /\ UNCHANGED <<act, res>>
 VARIABLE grp
 ParentsP == UNION {[1..n -> {0, 1}] : n \in 1..MaxPar} \cup {[j \in 1..n |-> 10 + j] : n \in LabLens}
 ArithP   == UNION {[1..n -> ArithVals] : n \in 1..MaxArith}
+ArithXP  == UNION {[1..n -> ArithXVals] : n \in 1..MaxArithX}
 CycP     == UNION {Perms(n) : n \in 1..MaxCyc}
 CompIx == <<"NormalMutation", "UniformMutation", "PartialRandomSpread", "BitFlipMutation",
             "PartialRandomBitstring", "ScrambleMutation", "SwapMutation", "InversionMutation",
             "InsertionMutation", "TranslocationMutation", "NPointCrossover", "UniformCrossover",
             "CycleCrossover", "DEBinomialCrossover", "DEExponentialCrossover">>
 ASSUME {a.c : a \in CompCases} = Range(CompIx)
+(* the constructor table, for the completeness check against the harness and the source *)
+ASSUME PrintT(<<"CTORS", ToJson([c \in Comps |-> Ctors(c)])>>)
 Groups == {<<1>> \o p : p \in PermInputs} \cup {<<2>> \o p : p \in PermInputs}
           \cup {<<3>> \o p : p \in ParentsP} \cup {<<4>> \o p : p \in ParentsP}
           \cup {<<5>> \o p : p \in ArithP} \cup {<<6>> \o p : p \in CycP}
-          \cup {<<7, k>> : k \in DOMAIN CompIx}
+          \cup {<<7, k>> : k \in DOMAIN CompIx} \cup {<<8>> \o p : p \in ArithXP}
 Mates(p) == IF p[1] >= 10 THEN {[j \in 1..Len(p) |-> 20 + j]} ELSE [1..Len(p) -> {2, 3}]
 
 NextFn ==
@@ -151,6 +197,7 @@ NextFn ==
       [] grp[1] = 4 -> \E q \in Mates(p) : \E m \in [1..n -> {0, 1}] : DoFn(A("uniform", p, q, m, 0, 0, 0))
       [] grp[1] = 5 -> \E q \in [1..n -> ArithVals] : \E al \in [1..n -> 0..4] : DoFn(A("arithmetic", p, q, al, 0, 0, 0))
       [] grp[1] = 6 -> \E q \in Perms(n) : DoFn(A("cycle", p, q, <<>>, 0, 0, 0))
+      [] grp[1] = 8 -> \E q \in [1..n -> ArithXVals] : \E al \in [1..n -> 0..AlphaTop] : DoFn(A("arith_x", p, q, al, 0, 0, 0))
       [] OTHER -> FALSE
 NextComp ==
     grp[1] = 7 /\ \E a \in {a \in CompCases : a.c = CompIx[grp[2]]} : \E r \in Gen(a) : GenStep(a, r)
@@ -168,11 +215,27 @@ Corrupt(r) ==
     \cup (IF r.k = "ok" THEN {[r EXCEPT !.out = Append(r.out, [c \in 1..cact.dim |-> 77])],
                               [r EXCEPT !.h = r.h + 1]} ELSE {})
     \cup (IF r.k = "ok" /\ Len(r.out) > 0 THEN {[r EXCEPT !.out[1][1] = 77]} ELSE {})
+    \cup (IF r.reg # <<>> THEN {[r EXCEPT !.reg[1][1] = (r.reg[1][1] + 1) % 4],     \* another rate under Global
+                                [r EXCEPT !.reg = <<>>]} ELSE {})
+    \cup (IF r.built # <<>> THEN {[r EXCEPT !.built[k] = IF r.built[k] = 0 THEN 1 ELSE 0] : k \in 1..5} ELSE {})
+    \cup (IF r.mag # <<>> /\ Len(r.mag) > 0 /\ r.k = "ok"
+          THEN {[r EXCEPT !.mag[1][1] = Eff(cact).st + 1]} ELSE {})              \* moved further than the bound
 RelRejects == cact.c # "-" => \A r2 \in Corrupt(cres) : ~CompRel(cact, r2)
 
 ArithValsDefault == {-1, 0, 3}
 ArithValsWide == {-2, -1, 0, 3, 5}
 
+(* the relation used for extreme genes accepts the exact reference and     *)
+(* rejects replies with one gene outside / not finite / not conserved /    *)
+(* not the parental gene at an end of the alpha range                      *)
+ArithXAccepts == act.op = "arith_x" => ArithXRel(act, res)
+XCorrupt(r) == UNION {{[r EXCEPT !.c1[j] = r.c1[j] + x], [r EXCEPT !.c2[j] = r.c2[j] + x]} : j \in 1..Len(r.c1), x \in 1..4}
+               \cup {[r EXCEPT !.c1[j] = r.c1[j] - 40] : j \in 1..Len(r.c1)}
+               \cup {[r EXCEPT !.c1[j] = (r.c1[j] % 10) + 40] : j \in {jj \in 1..Len(r.c1) : act.ix[jj] \in {0, AlphaTop}}}
+               \cup {[r EXCEPT !.k = "panic"]}
+ArithXRejects == act.op = "arith_x" => \A r2 \in XCorrupt(res) : ~ArithXRel(act, r2)
+
 PrintCase == /\ (act'.op \in FnOps) => PrintT(<<"CASE", ToJson([act |-> act', res |-> res'])>>)
-             /\ (cact'.c # "-") => PrintT(<<"CCASE", cact'.c, cres'.k, IF cres'.out = cact'.pin THEN 0 ELSE 1>>)
+             /\ (cact'.c # "-") => PrintT(<<"CCASE", cact'.c, cres'.k, IF cres'.out = cact'.pin THEN 0 ELSE 1, cact'.ctor,
+                                            IF cact'.sibs # <<>> THEN 1 ELSE 0, IF cact'.adapt # <<>> THEN 1 ELSE 0>>)
 =============================================================================
